@@ -98,6 +98,13 @@ func TestCheck(t *testing.T) {
 			for _, k := range []int{0, 3, 5, 100, -1} {
 				cases = append(cases, faults.Case{Kind: "stall", Proto: "h1", K: k}, faults.Case{Kind: "stall", Proto: "h2", K: k})
 			}
+			for _, proto := range []string{"h1", "h2"} {
+				for _, k := range []int{0} { // no fake time may pass while the proxy is blocked writing: the ReverseProxy flush timer goroutine would then wait for a mutex held by the blocked writer, which testing/synctest never sees as durable (the clock stops)
+					for v := 0; v < 3; v++ {
+						cases = append(cases, faults.Case{Kind: "slow-reader", Proto: proto, K: k, Val: v})
+					}
+				}
+			}
 		}
 		if shard == 0 {
 			rep.Sample(map[string]any{"proto": proto, "clean_session_client_bytes": nb, "server_ops": nops})
